@@ -12,16 +12,38 @@
     `L_max`), hence `ψ(x̂)+h(x̂) ≤ φγ(x) − ((1−γL)/(2γ))‖p‖² + margin_qub`;
   * `γ` never increases, stays positive, and `γ·L` is constant — per pass, per line search, per
     iteration, and over a whole solve (`γ·L = Lγ_factor` for every reported iterate).
+  * **whole run, over the list of progress callbacks** (`run_callbacks_ok` and its corollaries):
+    the reported step sizes are non-increasing with `γ·L = Lγ_factor` (`zerofpr_gamma_chain`,
+    `zerofpr_gamma_antitone_gammaL_const`), every reported iterate satisfies the quadratic upper
+    bound or `L ≥ L_max` or is the initial iterate of a solve whose initial step-size loop was
+    interrupted (`zerofpr_reported_iterate_qub`), and consecutive callbacks satisfy the descent
+    inequality `DescTo` with the documented margins (`zerofpr_descent_chain`): `τ > 0` from
+    ZeroFPR's own line search, `τ = 0` through the envelope link `φ_{γ'}(x̂ₖ) ≤ ψ(x̂ₖ)+h(x̂ₖ)`, which
+    needs the prox contract in its SIZED form (`Proofs/ProxContract.lean`, discharged there for
+    the box / box+ℓ1 steps from `Props/C15.lean`).
   No smoothness / convexity is assumed: problem functions, the prox step and the direction
   provider are arbitrary oracles; every stop schedule.
   Structural statements hold over any carrier; arithmetic ones over a linearly ordered field.
+
+  Forced hypotheses: `0 < Lγ_factor`, `0 < L_min`, `0 < L_max` (`ParamsOK`: positivity of `γ`, `L`);
+  `force_linesearch = false` for accelerated steps; `recompute_last_prox_step_after_stepsize_change
+  = false` for statements about the iterate *reported to the callback* (with that option the current
+  iterate is reported with the candidate's `(γ, L)`, i.e. with an envelope value that was never
+  tested); the reported vectors of a `τ = 0` step must have the dimension `n` the prox contract is
+  assumed for (premises of `DescTo`, all observable in the callback).  `…_fuel` theorems carry
+  `fuelOut = false`; the plain names discharge it from `FuelOK pr N M` and a stop flag that is
+  never lowered (`Proofs/ZerofprFuel.lean`).
 -/
 import Alpaqa.Proofs.ZerofprStep
+import Alpaqa.Proofs.ZerofprChain
+import Alpaqa.Proofs.ProxContract
 import Alpaqa.Proofs.ZerofprExample
+import Mathlib.Data.List.Chain
 
 namespace Alpaqa.Props.C05_Zerofpr
-open Alpaqa Alpaqa.Zerofpr Alpaqa.Gen
+open Alpaqa Alpaqa.Zerofpr Alpaqa.Gen Alpaqa.ProxContract
 set_option linter.unusedSectionVars false
+set_option linter.unusedVariables false
 
 /-! ### Structural: what an accepted candidate has passed (any carrier, IEEE doubles included) -/
 section structural
@@ -99,12 +121,12 @@ theorem qubInv_step (I : Prop) (P : Problem α) (dir : Direction D α) (pr : Par
     `L` reached `L_max`** — with one exception since the initial step-size loop polls the stop flag
     (C19): a solve whose initial loop was cut short by a stop request (`InitInterrupted`) and that
     returns the initial iterate (zero iterations). -/
-theorem zerofpr_final_iterate_qub (P : Problem α) (dir : Direction D α) (d0 : D) (pr : Params α)
-    (stop : Nat → Bool) (oot : Bool) (x0 y Sig errz0 gV : Vec α) (gS : α) (c : Iterate α)
-    (hfuel : (run P dir d0 pr stop oot x0 y Sig errz0 gV gS).fuelOut = false)
-    (hc : (run P dir d0 pr stop oot x0 y Sig errz0 gV gS).final = some c) :
+theorem zerofpr_final_iterate_qub_fuel (P : Problem α) (dir : Direction D α) (d0 : D) (pr : Params α)
+    (stop : Nat → Bool) (oot : Bool) (x0 y Sig errz0 gV : Vec α) (gS iS : α) (c : Iterate α)
+    (hfuel : (run P dir d0 pr stop oot x0 y Sig errz0 gV gS iS).fuelOut = false)
+    (hc : (run P dir d0 pr stop oot x0 y Sig errz0 gV gS iS).final = some c) :
     QubOK pr c ∨ (InitInterrupted P d0 pr stop x0 gV gS ∧
-      (run P dir d0 pr stop oot x0 y Sig errz0 gV gS).stats.iterations = 0) := by
+      (run P dir d0 pr stop oot x0 y Sig errz0 gV gS iS).stats.iterations = 0) := by
   have hII : ∀ s, initState P d0 pr stop x0 gV gS = .inr s →
       (stop s.tick = true ↔ InitInterrupted P d0 pr stop x0 gV gS) := by
     intro s hs; unfold InitInterrupted; rw [hs]
@@ -279,11 +301,11 @@ theorem iterBody_gamma (P : Problem α) (dir : Direction D α) (pr : Params α)
     Unconditional in oracles, stop schedule and budget; needs only `0 < L_min`, `0 < L_max`,
     `0 < Lγ_factor` (so that the initial `γ = Lγ_factor / L` is well defined and positive). -/
 theorem zerofpr_gamma_antitone_gammaL_const (P : Problem α) (dir : Direction D α) (d0 : D)
-    (pr : Params α) (stop : Nat → Bool) (oot : Bool) (x0 y Sig errz0 gV : Vec α) (gS : α)
+    (pr : Params α) (stop : Nat → Bool) (oot : Bool) (x0 y Sig errz0 gV : Vec α) (gS iS : α)
     (hmin : 0 < pr.Lmin) (hmax : 0 < pr.Lmax) (hfac : 0 < pr.LgammaFactor) :
-    (run P dir d0 pr stop oot x0 y Sig errz0 gV gS).callbacks.Pairwise
+    (run P dir d0 pr stop oot x0 y Sig errz0 gV gS iS).callbacks.Pairwise
       (fun a b => b.it.gamma ≤ a.it.gamma) ∧
-    ∀ cb ∈ (run P dir d0 pr stop oot x0 y Sig errz0 gV gS).callbacks,
+    ∀ cb ∈ (run P dir d0 pr stop oot x0 y Sig errz0 gV gS iS).callbacks,
       0 < cb.it.gamma ∧ cb.it.gamma * cb.it.L = pr.LgammaFactor := by
   unfold run
   cases hi : initState P d0 pr stop x0 gV gS with
@@ -312,6 +334,429 @@ theorem zerofpr_gamma_antitone_gammaL_const (P : Problem α) (dir : Direction D 
       unfold GammaInv at hI ⊢
       rw [hs.1, hs.2.2.2.1]; exact hI
     · rw [he]; exact key s' _ _ hI
+
+/-! ### The whole run, as seen through the progress callback -/
+
+/-- `γ > 0`, `L > 0`, `γ·L = Lγ_factor`. -/
+def GammaOK (pr : Params α) (i : Iterate α) : Prop :=
+  0 < i.gamma ∧ 0 < i.L ∧ i.gamma * i.L = pr.LgammaFactor
+
+theorem gammaOK_of_GL (pr : Params α) (c n : Iterate α) (hc : GammaOK pr c) (h : GL c n) :
+    GammaOK pr n := by
+  obtain ⟨h0, _, h2⟩ := h
+  have hκ : 0 < n.gamma * n.L := by rw [h2]; exact mul_pos hc.1 hc.2.1
+  exact ⟨h0, (pos_iff_pos_of_mul_pos hκ).mp h0, by rw [h2]; exact hc.2.2⟩
+
+/-- `qub_violated = false` as the forward-backward descent inequality (`γ > 0`):
+    `ψ(x̂) + h(x̂) ≤ φγ(x) − ((1−γL)/(2γ))‖p‖² + (1+|ψ(x)|)·qub_tol`. -/
+theorem qub_fb_descent (pr : Params α) (i : Iterate α) (h : qubViolated pr i = false)
+    (hγ : 0 < i.gamma) :
+    i.psixhat + i.hxhat ≤
+      i.fbe - (1 - i.gamma * i.L) / (2 * i.gamma) * i.pTp + (1 + |i.psix|) * pr.qubTol := by
+  have hq := qub_kernel_bound _ _ _ _ _ _ h
+  unfold Iterate.fbe zerofpr_fbe
+  have hne : i.gamma ≠ 0 := ne_of_gt hγ
+  have : (1 - i.gamma * i.L) / (2 * i.gamma) * i.pTp
+      = i.pTp / (2 * i.gamma) - 1 / 2 * i.L * i.pTp := by
+    field_simp
+  rw [this]
+  linarith
+
+/-- **One completed iteration that takes the safeguarded step** (`τ = 0`: the line search failed,
+    there was no direction, or the direction was abandoned): `xₖ₊₁ = x̂ₖ`, and for *whatever* step size
+    the backtracking inside the line search chose for the new iterate,
+    `φ(xₖ₊₁) ≤ φ(xₖ) − ((1−γₖLₖ)/(2γₖ))‖pₖ‖² + (1+|ψ(xₖ)|)·qub_tol`,
+    provided the current iterate passed the quadratic-upper-bound test and the prox oracle meets its
+    (sized) contract at the two points where it is used: `(γₖ, xₖ, ∇ψ(xₖ))` and `(γₖ₊₁, x̂ₖ, ∇ψ(x̂ₖ))`. -/
+theorem zerofpr_safe_step_descent (n : Nat) (hval : Vec α → α) (dom : Vec α → Prop) (P : Problem α)
+    (hP : Sized n hval dom P.prox) (dir : Direction D α) (pr : Params α) (stop : Nat → Bool)
+    (s : St α D) (eps : α) (hγ : 0 < s.curr.gamma) (hsc : StepCons P s.curr)
+    (hq : qubViolated pr s.curr = false)
+    (hx : s.curr.x.length = n) (hgr : s.curr.gradPsi.length = n) (hgh : s.prox.gradPsi.length = n)
+    (hst : stop (lsOf P dir pr stop s).tick = false) (hf : (lsOf P dir pr stop s).fuelOut = false)
+    (hτ : (lsOf P dir pr stop s).tau = 0) :
+    (iterBody P dir pr stop s eps).curr.fbe ≤
+      s.curr.fbe - (1 - s.curr.gamma * s.curr.L) / (2 * s.curr.gamma) * s.curr.pTp +
+        (1 + |s.curr.psix|) * pr.qubTol := by
+  have hd := lsOf_lsDone P dir pr stop s hf hst
+  obtain ⟨hsx, hspsi, hsg⟩ := hd.safe hτ
+  obtain ⟨⟨hh, hxh, hp⟩, hpTp, hgTp⟩ := hd.step
+  have hγ' := (lsOf_GL P dir pr stop s hγ).1
+  -- the current iterate's own step: x̂ₖ ∈ dom h, of dimension n, h(x̂ₖ) is what it carries
+  obtain ⟨⟨ch, cxh, cp⟩, _, _⟩ := hsc
+  have hr0 := hP s.curr.gamma s.curr.x s.curr.gradPsi hγ hx hgr
+  have hdom : dom s.curr.xhat := by rw [cxh]; exact hr0.feas
+  have hlen : s.curr.xhat.length = n := by rw [cxh]; exact hr0.len
+  have hhx : s.curr.hxhat = hval s.curr.xhat := by rw [ch, cxh]; exact hr0.h_eq
+  -- the new iterate's step, taken from x̂ₖ
+  have hr := hP (lsOf P dir pr stop s).next.gamma (lsOf P dir pr stop s).next.x
+    (lsOf P dir pr stop s).next.gradPsi hγ' (by rw [hsx]; exact hlen) (by rw [hsg]; exact hgh)
+  have henv := envelope_le_cost n hval dom _ (lsOf P dir pr stop s).next.psix _ _ _ hr
+    (by rw [hsx]; exact hdom) (by rw [hsx]; exact hlen)
+  have hfb := qub_fb_descent pr s.curr hq hγ
+  rw [(iterBody_completed P dir pr stop s eps hst).1]
+  have e : (lsOf P dir pr stop s).next.fbe =
+      (lsOf P dir pr stop s).next.psix +
+        (P.prox (lsOf P dir pr stop s).next.gamma (lsOf P dir pr stop s).next.x
+          (lsOf P dir pr stop s).next.gradPsi).1 +
+        sqNorm (P.prox (lsOf P dir pr stop s).next.gamma (lsOf P dir pr stop s).next.x
+          (lsOf P dir pr stop s).next.gradPsi).2.2 / (2 * (lsOf P dir pr stop s).next.gamma) +
+        dot (P.prox (lsOf P dir pr stop s).next.gamma (lsOf P dir pr stop s).next.x
+          (lsOf P dir pr stop s).next.gradPsi).2.2 (lsOf P dir pr stop s).next.gradPsi := by
+    unfold Iterate.fbe zerofpr_fbe
+    rw [hh, hpTp, hgTp, hp]
+  rw [e]
+  rw [hsx, hspsi] at henv
+  rw [hsx, hspsi]
+  linarith
+
+/-- Relation between a loop callback `a` (iteration `k`, reporting `φₖ, γₖ, Lₖ, ‖pₖ‖², τₖ`) and the
+    envelope value `φ` of the next reported iterate: the property's inequality with
+    `cₖ = (1−γₖLₖ)/(2γₖ)`, times the strictness factor for accelerated steps (`τₖ > 0`); for the
+    safeguarded step (`τₖ = 0`) the reported vectors must have the problem's dimension `n`, the
+    dimension for which the prox contract is assumed. -/
+def DescTo (n : Nat) (pr : Params α) (a : Callback α) (φ : α) : Prop :=
+  (0 < a.tau → pr.forceLinesearch = false →
+    φ ≤ a.fbe - pr.lsStrictness * (1 - a.it.gamma * a.it.L) / (2 * a.it.gamma) * a.it.pTp +
+      (1 + |a.fbe|) * pr.lsTol) ∧
+  (a.tau = 0 → qubViolated pr a.it = false →
+    a.it.x.length = n → a.it.gradPsi.length = n → a.gradPsiHat.length = n →
+    φ ≤ a.fbe - (1 - a.it.gamma * a.it.L) / (2 * a.it.gamma) * a.it.pTp +
+      (1 + |a.it.psix|) * pr.qubTol)
+
+/-- What holds for every callback of a run.  `I` = "the initial step-size loop was cut short by a
+    stop request": then the initial iterate (reported with `k = 0`) was never brought to satisfy the
+    quadratic upper bound. -/
+structure CbOK (I : Prop) (pr : Params α) (cb : Callback α) : Prop where
+  gok : GammaOK pr cb.it
+  qub : pr.recomputeLastProx = false → QubOK pr cb.it ∨ (I ∧ cb.k = 0)
+  fbe : cb.fbe = cb.it.fbe
+  tau : cb.status = .Busy → 0 ≤ cb.tau
+
+/-- Relation between consecutive callbacks (`a` earlier, `b` later). -/
+def Consec (G : Prop) (n : Nat) (pr : Params α) (a b : Callback α) : Prop :=
+  b.it.gamma ≤ a.it.gamma ∧ (G → DescTo n pr a b.fbe)
+
+structure LoopInv (G I : Prop) (n : Nat) (P : Problem α) (pr : Params α) (s : St α D) : Prop where
+  gok : GammaOK pr s.curr
+  /-- the current iterate passed the quadratic-upper-bound test (or `L ≥ L_max`) — except the initial
+      iterate of a solve whose initial step-size loop was interrupted (`I`) -/
+  qok : QubOK pr s.curr ∨ (I ∧ s.k = 0)
+  step : StepCons P s.curr
+  cbs_ok : ∀ cb ∈ s.cbs, CbOK I pr cb
+  chain : List.IsChain (fun newer older => Consec G n pr older newer) s.cbs
+  head : ∀ cb, s.cbs.head? = some cb →
+    s.curr.gamma ≤ cb.it.gamma ∧ (G → DescTo n pr cb s.curr.fbe)
+
+theorem headStep_inv (G I : Prop) (n : Nat) (P : Problem α) (pr : Params α) (stop : Nat → Bool)
+    (oot : Bool) (s : St α D) (h : LoopInv G I n P pr s) :
+    LoopInv G I n P pr (headStep P pr stop oot s).1 := by
+  have hs := headStep_same P pr stop oot s
+  refine ⟨by rw [hs.1]; exact h.gok, ?_, by rw [hs.1]; exact h.step, by rw [hs.2.2.2.1]; exact h.cbs_ok,
+    by rw [hs.2.2.2.1]; exact h.chain, ?_⟩
+  · rw [hs.1, hs.2.1]; exact h.qok
+  · rw [hs.2.2.2.1, hs.1]; exact h.head
+
+/-- The loop invariant is kept by one pass of the loop body (completed or interrupted) whose line
+    search did not run out of fuel; `G` switches the descent clauses on
+    (`recompute_last_prox_step_after_stepsize_change = false` and the sized prox contract). -/
+theorem iterBody_inv (G I : Prop) (n : Nat) (hval : Vec α → α) (dom : Vec α → Prop) (P : Problem α)
+    (dir : Direction D α) (pr : Params α)
+    (hG : G → pr.recomputeLastProx = false ∧ Sized n hval dom P.prox)
+    (stop : Nat → Bool) (s : St α D) (eps : α) (h : LoopInv G I n P pr s)
+    (hf : (lsOf P dir pr stop s).fuelOut = false) :
+    LoopInv G I n P pr (iterBody P dir pr stop s eps) := by
+  by_cases hst : stop (lsOf P dir pr stop s).tick = true
+  · have hint := iterBody_interrupted P dir pr stop s eps hst
+    refine ⟨by rw [hint.1]; exact h.gok, ?_, by rw [hint.1]; exact h.step,
+      by rw [hint.2.2.2.2.1]; exact h.cbs_ok, by rw [hint.2.2.2.2.1]; exact h.chain, ?_⟩
+    · rw [hint.1, hint.2.2.1]; exact h.qok
+    · rw [hint.2.2.2.2.1, hint.1]; exact h.head
+  · have hst' : stop (lsOf P dir pr stop s).tick = false := by simpa using hst
+    have hc := iterBody_completed P dir pr stop s eps hst'
+    have hd := lsOf_lsDone P dir pr stop s hf hst'
+    have hgl := lsOf_GL P dir pr stop s h.gok.1
+    have hgnew : GammaOK pr (lsOf P dir pr stop s).next := gammaOK_of_GL pr _ _ h.gok hgl
+    obtain ⟨cb, hcbs, htau, hk, heps, hstat, hit, hfbe, hgh⟩ := iterBody_callback P dir pr stop s eps hst'
+    -- the reported iterate: the current one, possibly with (γ, L) replaced by the candidate's
+    have hcbγ : GammaOK pr cb.it ∧ cb.it.gamma ≤ s.curr.gamma ∧
+        (lsOf P dir pr stop s).next.gamma ≤ cb.it.gamma := by
+      rcases updateStage_curr P dir pr s.curr s.prox (lsOf P dir pr stop s) with hu | hu
+      · rw [hit, hu]; exact ⟨h.gok, le_refl _, hgl.2.1⟩
+      · rw [hit, hu]; exact ⟨hgnew, hgl.2.1, le_refl _⟩
+    have hsame : pr.recomputeLastProx = false → cb.it = s.curr := fun hrec => by
+      rw [hit]; exact updateStage_norecomp P dir pr _ _ _ hrec
+    have hgrad : cb.gradPsiHat = s.prox.gradPsi := by
+      rw [hgh]; exact updateStage_gradHat P dir pr _ _ _
+    -- the new callback against the new current iterate
+    have hdesc : G → DescTo n pr cb (iterBody P dir pr stop s eps).curr.fbe := by
+      intro hg
+      have hcc := hsame (hG hg).1
+      constructor
+      · intro hτ hforce
+        rw [htau] at hτ
+        have := zerofpr_iter_descent P dir pr stop s eps hforce hst' hf hτ
+        unfold sigma at this
+        rw [hfbe, hcc]
+        exact this
+      · intro hτ hq hx hgr hgh'
+        rw [htau] at hτ
+        rw [hcc] at hq hx hgr
+        rw [hgrad] at hgh'
+        have := zerofpr_safe_step_descent n hval dom P (hG hg).2 dir pr stop s eps h.gok.1 h.step hq
+          hx hgr hgh' hst' hf hτ
+        rw [hfbe, hcc]
+        exact this
+    have hcbok : CbOK I pr cb :=
+      ⟨hcbγ.1, fun hrec => by rw [hsame hrec, hk]; exact h.qok, hfbe,
+        fun _ => by rw [htau]; exact hd.tau_nonneg⟩
+    refine ⟨by rw [hc.1]; exact hgnew, Or.inl (by rw [hc.1]; exact hd.acc.1),
+      by rw [hc.1]; exact hd.step, ?_, ?_, ?_⟩
+    · intro c hcm
+      rw [hcbs] at hcm
+      rcases List.mem_cons.mp hcm with hcm | hcm
+      · rw [hcm]; exact hcbok
+      · exact h.cbs_ok c hcm
+    · rw [hcbs, List.isChain_cons]
+      refine ⟨?_, h.chain⟩
+      intro older hold
+      have hh := h.head older (by simpa using hold)
+      refine ⟨le_trans hcbγ.2.1 hh.1, fun hg => ?_⟩
+      rw [hfbe, hsame (hG hg).1]
+      exact hh.2 hg
+    · intro c hcm
+      rw [hcbs] at hcm
+      have : c = cb := by simpa using hcm.symm
+      subst this
+      rw [hc.1] at hdesc ⊢
+      exact ⟨hcbγ.2.2, hdesc⟩
+
+/-- Conclusion for the callbacks of an exit from a state satisfying the invariant. -/
+theorem exit_callbacks_ok (G I : Prop) (n : Nat) (P : Problem α) (pr : Params α) (s : St α D)
+    (eps : α) (status : SolverStatus) (x0 y Sig errz0 : Vec α) (h : LoopInv G I n P pr s)
+    (hst : status ≠ .Busy) :
+    List.IsChain (Consec G n pr) (exitBlock pr s eps status x0 y Sig errz0).callbacks ∧
+    ∀ cb ∈ (exitBlock pr s eps status x0 y Sig errz0).callbacks, CbOK I pr cb := by
+  have hcb : (exitBlock pr s eps status x0 y Sig errz0).callbacks =
+      (({ k := s.k, status := status, it := s.curr, fbe := s.curr.fbe,
+          gradPsiHat := s.prox.gradPsi, q := [], tau := -1, eps := eps } : Callback α)
+        :: s.cbs).reverse := rfl
+  rw [hcb]
+  constructor
+  · rw [List.isChain_reverse, List.isChain_cons]
+    refine ⟨?_, h.chain⟩
+    intro older hold
+    have hh := h.head older (by simpa using hold)
+    exact ⟨hh.1, hh.2⟩
+  · intro cb hcb'
+    rw [List.mem_reverse] at hcb'
+    rcases List.mem_cons.mp hcb' with hc | hc
+    · rw [hc]
+      exact ⟨h.gok, fun _ => h.qok, rfl, fun hb => absurd hb hst⟩
+    · exact h.cbs_ok cb hc
+
+/-- Hypotheses on the parameters that the whole-run theorems need (positivity of `γ`, `L`). -/
+structure ParamsOK (pr : Params α) : Prop where
+  lgf : 0 < pr.LgammaFactor
+  lmin : 0 < pr.Lmin
+  lmax : 0 < pr.Lmax
+
+theorem initQub_stepCons (P : Problem α) (pr : Params α) (stop : Nat → Bool) (f : Nat)
+    (c : Iterate α) (t b : Nat) (h : StepCons P c) : StepCons P (initQub P pr stop f c t b).1 := by
+  induction f generalizing c t b with
+  | zero => simpa [initQub] using h
+  | succ f ih =>
+    unfold initQub
+    split_ifs
+    · exact h
+    · exact ih _ _ _ (stepCons_evalStep P _)
+    · exact h
+
+/-- The invariant holds in the state the main loop starts from. -/
+theorem initState_inv (P : Problem α) (d0 : D) (pr : Params α) (stop : Nat → Bool) (x0 gV : Vec α)
+    (gS : α) (hp : ParamsOK pr) (s : St α D) (hi : initState P d0 pr stop x0 gV gS = .inr s)
+    (hf : s.fuelOut = false) (G I : Prop) (n : Nat) (hI : stop s.tick = true → I) :
+    LoopInv G I n P pr s := by
+  have hg := initState_gammaInv P d0 pr stop x0 gV gS hp.lmin hp.lmax hp.lgf s hi
+  have hk := initState_good P d0 pr stop x0 gV gS s hi
+  have hgok : GammaOK pr s.curr := by
+    have hκ : 0 < s.curr.gamma * s.curr.L := by rw [hg.2.1]; exact hp.lgf
+    exact ⟨hg.1, (pos_iff_pos_of_mul_pos hκ).mp hg.1, hg.2.1⟩
+  have hq : QubOK pr s.curr ∨ (I ∧ s.k = 0) := by
+    by_cases hst : stop s.tick = true
+    · exact .inr ⟨hI hst, hk.2.1⟩
+    · left
+      unfold initState at hi
+      simp only [] at hi
+      split_ifs at hi
+      injection hi with hi; subst hi
+      exact initQub_qubOK P pr stop _ _ _ _ (by simpa using hf) (by simpa using hst)
+  have hsc : StepCons P s.curr := by
+    unfold initState at hi
+    simp only [] at hi
+    split_ifs at hi
+    injection hi with hi; subst hi
+    exact initQub_stepCons P pr stop _ _ _ _ (stepCons_evalStep P _)
+  refine ⟨hgok, hq, hsc, ?_, ?_, ?_⟩
+  · rw [hk.2.2.1]; simp
+  · rw [hk.2.2.1]; exact List.isChain_nil
+  · rw [hk.2.2.1]; simp
+
+/-- **The callbacks of a solve**: consecutive ones are related by `Consec`, each one satisfies `CbOK`
+    (model fuel not exhausted). -/
+theorem run_callbacks_ok (G : Prop) (n : Nat) (hval : Vec α → α) (dom : Vec α → Prop) (P : Problem α)
+    (dir : Direction D α) (d0 : D) (pr : Params α)
+    (hG : G → pr.recomputeLastProx = false ∧ Sized n hval dom P.prox)
+    (hp : ParamsOK pr) (stop : Nat → Bool) (oot : Bool) (x0 y Sig errz0 gV : Vec α) (gS iS : α)
+    (hfuel : (run P dir d0 pr stop oot x0 y Sig errz0 gV gS iS).fuelOut = false) :
+    List.IsChain (Consec G n pr) (run P dir d0 pr stop oot x0 y Sig errz0 gV gS iS).callbacks ∧
+    ∀ cb ∈ (run P dir d0 pr stop oot x0 y Sig errz0 gV gS iS).callbacks,
+      CbOK (InitInterrupted P d0 pr stop x0 gV gS) pr cb := by
+  rcases run_cases P dir d0 pr stop oot x0 y Sig errz0 gV gS iS
+    (fun s => s.fuelOut = true ∨ LoopInv G (InitInterrupted P d0 pr stop x0 gV gS) n P pr s)
+    (fun s hi => by
+      by_cases hf : s.fuelOut = true
+      · exact .inl hf
+      · exact .inr (initState_inv P d0 pr stop x0 gV gS hp s hi (by simpa using hf) G _ n
+          (fun h => by unfold InitInterrupted; rw [hi]; exact h)))
+    (fun s hI _ => by
+      have hs := headStep_same P pr stop oot s
+      rcases hI with hI | hI
+      · left; rw [iterBody_fuelOut, hs.2.2.2.2.1, hI]; rfl
+      · cases hfo : (iterBody P dir pr stop (headStep P pr stop oot s).1
+            (headStep P pr stop oot s).2.1).fuelOut
+        · right
+          rw [iterBody_fuelOut] at hfo
+          have hlsf : (lsOf P dir pr stop (headStep P pr stop oot s).1).fuelOut = false := by
+            cases hx : (lsOf P dir pr stop (headStep P pr stop oot s).1).fuelOut
+            · rfl
+            · rw [hx] at hfo; simp at hfo
+          exact iterBody_inv G _ n hval dom P dir pr hG stop _ _
+            (headStep_inv G _ n P pr stop oot s hI) hlsf
+        · left; rfl)
+    hfuel with ⟨t, ht⟩ | ⟨s', hI, hnb, he⟩
+  · unfold run; rw [ht]; simp
+  · rw [he] at hfuel ⊢
+    rw [(exitBlock_spec pr _ _ _ x0 y Sig errz0).2.2.2.2.2.1,
+      (headStep_same P pr stop oot s').2.2.2.2.1] at hfuel
+    rcases hI with hI | hI
+    · rw [hI] at hfuel; exact absurd hfuel (by decide)
+    · exact exit_callbacks_ok G _ n P pr _ _ _ x0 y Sig errz0
+        (headStep_inv G _ n P pr stop oot s' hI) hnb
+
+/-! ### The property's loop-level clauses, over the callback stream of a solve
+
+  Each clause comes in two forms: `…_fuel` carries the hypothesis `fuelOut = false` (any stop
+  schedule; this is what the replay asserts on every recorded run), the plain name discharges it from
+  the explicit bounds `FuelOK pr N M` on the parameters and a stop flag that is never lowered
+  (`Proofs/ZerofprFuel.run_fuel`). -/
+
+theorem qubOK_cases (pr : Params α) (i : Iterate α) (h : QubOK pr i) :
+    i.psixhat ≤ i.psix + i.gradPsiTp + 1 / 2 * i.L * i.pTp + (1 + |i.psix|) * pr.qubTol ∨
+    pr.Lmax ≤ i.L := by
+  unfold QubOK at h
+  simp only [Bool.and_eq_false_iff, decide_eq_false_iff_not, not_lt] at h
+  rcases h with h | h
+  · exact .inr h
+  · exact .inl (qub_kernel_bound _ _ _ _ _ _ h)
+
+/-- **Every iterate handed to the callback satisfies the quadratic upper bound unless `L ≥ L_max`**
+    (`recompute_last_prox_step_after_stepsize_change = false`; with that option the current iterate
+    is reported with the candidate's `(γ, L)` without having been tested with them).  One exception,
+    since the initial step-size loop polls the stop flag (C19): when that loop was cut short by a stop
+    request (`InitInterrupted`), the *initial* iterate (reported with `k = 0`) was never brought to
+    satisfy the bound; with a flag that is never lowered that solve ends at its first loop head
+    (`Props/C19_Zerofpr.zerofpr_init_interrupted_exits`). -/
+theorem zerofpr_reported_iterate_qub_fuel (P : Problem α) (dir : Direction D α) (d0 : D)
+    (pr : Params α) (hp : ParamsOK pr) (hrec : pr.recomputeLastProx = false) (stop : Nat → Bool)
+    (oot : Bool) (x0 y Sig errz0 gV : Vec α) (gS iS : α)
+    (hfuel : (run P dir d0 pr stop oot x0 y Sig errz0 gV gS iS).fuelOut = false) :
+    ∀ cb ∈ (run P dir d0 pr stop oot x0 y Sig errz0 gV gS iS).callbacks,
+      cb.it.psixhat ≤ cb.it.psix + cb.it.gradPsiTp + 1 / 2 * cb.it.L * cb.it.pTp +
+          (1 + |cb.it.psix|) * pr.qubTol ∨ pr.Lmax ≤ cb.it.L ∨
+      (InitInterrupted P d0 pr stop x0 gV gS ∧ cb.k = 0) := fun cb hcb => by
+  have h := ((run_callbacks_ok False 0 (fun _ => 0) (fun _ => True) P dir d0 pr (fun h => h.elim) hp
+    stop oot x0 y Sig errz0 gV gS iS hfuel).2 cb hcb).qub hrec
+  rcases h with h | h
+  · rcases qubOK_cases pr cb.it h with h | h
+    · exact .inl h
+    · exact .inr (.inl h)
+  · exact .inr (.inr h)
+
+theorem zerofpr_reported_iterate_qub (P : Problem α) (dir : Direction D α) (d0 : D)
+    (pr : Params α) (hp : ParamsOK pr) (hrec : pr.recomputeLastProx = false) (stop : Nat → Bool)
+    (hm : StopMono stop) (N M : Nat) (hF : FuelOK pr N M)
+    (oot : Bool) (x0 y Sig errz0 gV : Vec α) (gS iS : α) :
+    ∀ cb ∈ (run P dir d0 pr stop oot x0 y Sig errz0 gV gS iS).callbacks,
+      cb.it.psixhat ≤ cb.it.psix + cb.it.gradPsiTp + 1 / 2 * cb.it.L * cb.it.pTp +
+          (1 + |cb.it.psix|) * pr.qubTol ∨ pr.Lmax ≤ cb.it.L ∨
+      (InitInterrupted P d0 pr stop x0 gV gS ∧ cb.k = 0) :=
+  zerofpr_reported_iterate_qub_fuel P dir d0 pr hp hrec stop oot x0 y Sig errz0 gV gS iS
+    (run_fuel P dir d0 pr stop hm N M hF oot x0 y Sig errz0 gV gS iS)
+
+/-- **Descent between consecutive callbacks `k`, `k+1` of a solve** (`DescTo`): with
+    `cₖ = (1−γₖLₖ)/(2γₖ)` from the fields reported at `k`,
+    * `τₖ > 0` (accelerated step `x̂ₖ + τₖ qₖ` accepted by ZeroFPR's own line search, not forced):
+      `φₖ₊₁ ≤ φₖ − β·cₖ‖pₖ‖² + (1+|φₖ|)·ls_tol`;
+    * `τₖ = 0` (safeguarded step `xₖ₊₁ = x̂ₖ`), the reported iterate passed the quadratic-upper-bound
+      test and the reported `x`, `∇ψ(x)`, `∇ψ(x̂)` have the problem's dimension `n`:
+      `φₖ₊₁ ≤ φₖ − cₖ‖pₖ‖² + (1+|ψₖ|)·qub_tol` — the envelope link `φ_{γ'}(x̂ₖ) ≤ ψ(x̂ₖ) + h(x̂ₖ)`
+      comes from the prox contract, whatever the new step size `γ'`;
+    for `recompute_last_prox_step_after_stepsize_change = false` and a prox oracle meeting the sized
+    contract `ProxContract.Sized n` (discharged for the box / box+ℓ1 steps by
+    `ProxContract.boxL1_sized`).  Every callback reports `φ = fbe` of its own iterate; every `Busy`
+    callback has `τ ≥ 0`. -/
+theorem zerofpr_descent_chain_fuel (n : Nat) (hval : Vec α → α) (dom : Vec α → Prop) (P : Problem α)
+    (hP : Sized n hval dom P.prox) (dir : Direction D α) (d0 : D) (pr : Params α)
+    (hp : ParamsOK pr) (hrec : pr.recomputeLastProx = false) (stop : Nat → Bool) (oot : Bool)
+    (x0 y Sig errz0 gV : Vec α) (gS iS : α)
+    (hfuel : (run P dir d0 pr stop oot x0 y Sig errz0 gV gS iS).fuelOut = false) :
+    List.IsChain (fun a b : Callback α => DescTo n pr a b.fbe)
+      (run P dir d0 pr stop oot x0 y Sig errz0 gV gS iS).callbacks ∧
+    ∀ cb ∈ (run P dir d0 pr stop oot x0 y Sig errz0 gV gS iS).callbacks,
+      cb.fbe = cb.it.fbe ∧ (cb.status = .Busy → 0 ≤ cb.tau) := by
+  have h := run_callbacks_ok True n hval dom P dir d0 pr (fun _ => ⟨hrec, hP⟩) hp stop oot
+    x0 y Sig errz0 gV gS iS hfuel
+  exact ⟨h.1.imp (fun _ _ hc => hc.2 trivial), fun cb hcb => ⟨(h.2 cb hcb).fbe, (h.2 cb hcb).tau⟩⟩
+
+theorem zerofpr_descent_chain (n : Nat) (hval : Vec α → α) (dom : Vec α → Prop) (P : Problem α)
+    (hP : Sized n hval dom P.prox) (dir : Direction D α) (d0 : D) (pr : Params α)
+    (hp : ParamsOK pr) (hrec : pr.recomputeLastProx = false) (stop : Nat → Bool)
+    (hm : StopMono stop) (N M : Nat) (hF : FuelOK pr N M) (oot : Bool)
+    (x0 y Sig errz0 gV : Vec α) (gS iS : α) :
+    List.IsChain (fun a b : Callback α => DescTo n pr a b.fbe)
+      (run P dir d0 pr stop oot x0 y Sig errz0 gV gS iS).callbacks ∧
+    ∀ cb ∈ (run P dir d0 pr stop oot x0 y Sig errz0 gV gS iS).callbacks,
+      cb.fbe = cb.it.fbe ∧ (cb.status = .Busy → 0 ≤ cb.tau) :=
+  zerofpr_descent_chain_fuel n hval dom P hP dir d0 pr hp hrec stop oot x0 y Sig errz0 gV gS iS
+    (run_fuel P dir d0 pr stop hm N M hF oot x0 y Sig errz0 gV gS iS)
+
+/-- **The reported step size never increases** along the progress callbacks of a solve, and
+    **`γ·L = Lγ_factor`, `γ, L > 0`** for every reported iterate (chain form; the unconditional
+    `zerofpr_gamma_antitone_gammaL_const` gives the pairwise form without any fuel hypothesis). -/
+theorem zerofpr_gamma_chain (P : Problem α) (dir : Direction D α) (d0 : D) (pr : Params α)
+    (hp : ParamsOK pr) (stop : Nat → Bool) (hm : StopMono stop) (N M : Nat) (hF : FuelOK pr N M)
+    (oot : Bool) (x0 y Sig errz0 gV : Vec α) (gS iS : α) :
+    List.IsChain (fun a b : Callback α => b.it.gamma ≤ a.it.gamma)
+      (run P dir d0 pr stop oot x0 y Sig errz0 gV gS iS).callbacks ∧
+    ∀ cb ∈ (run P dir d0 pr stop oot x0 y Sig errz0 gV gS iS).callbacks,
+      cb.it.gamma * cb.it.L = pr.LgammaFactor ∧ 0 < cb.it.gamma ∧ 0 < cb.it.L := by
+  have h := run_callbacks_ok False 0 (fun _ => 0) (fun _ => True) P dir d0 pr (fun h => h.elim) hp
+    stop oot x0 y Sig errz0 gV gS iS (run_fuel P dir d0 pr stop hm N M hF oot x0 y Sig errz0 gV gS iS)
+  exact ⟨h.1.imp (fun _ _ hc => hc.1), fun cb hcb =>
+    ⟨(h.2 cb hcb).gok.2.2, (h.2 cb hcb).gok.1, (h.2 cb hcb).gok.2.1⟩⟩
+
+/-- **The iterate a solve returns satisfies the quadratic-upper-bound test, or its `L` reached
+    `L_max`**, or the solve's initial step-size loop was cut short and it returns the initial
+    iterate — with the fuel hypothesis discharged. -/
+theorem zerofpr_final_iterate_qub (P : Problem α) (dir : Direction D α) (d0 : D) (pr : Params α)
+    (stop : Nat → Bool) (hm : StopMono stop) (N M : Nat) (hF : FuelOK pr N M) (oot : Bool)
+    (x0 y Sig errz0 gV : Vec α) (gS iS : α) (c : Iterate α)
+    (hc : (run P dir d0 pr stop oot x0 y Sig errz0 gV gS iS).final = some c) :
+    QubOK pr c ∨ (InitInterrupted P d0 pr stop x0 gV gS ∧
+      (run P dir d0 pr stop oot x0 y Sig errz0 gV gS iS).stats.iterations = 0) :=
+  zerofpr_final_iterate_qub_fuel P dir d0 pr stop oot x0 y Sig errz0 gV gS iS c
+    (run_fuel P dir d0 pr stop hm N M hF oot x0 y Sig errz0 gV gS iS) hc
 
 /-! ### Non-vacuity -/
 
@@ -342,6 +787,72 @@ example : (exRun (fun _ => false)).callbacks.map (·.fbe) = [5/2, 1/4, 1/64, 1/1
     (exRun (fun _ => false)).callbacks.map (fun cb => cb.it.gamma * cb.it.L) = [1/2, 1/2, 1/2, 1/2] ∧
     0 < exPr.Lmin ∧ 0 < exPr.Lmax ∧ 0 < exPr.LgammaFactor ∧ exPr.forceLinesearch = false := by
   decide +kernel
+
+/-! the whole-run theorems on a concrete solve whose prox step is the shipped box step
+    (`C15.proxGradStep` with `C = [−1, 1]`, no ℓ1 term) — all hypotheses instantiated -/
+
+/-- `exP` with the translator-generated box step of `BoxConstrProblem` as its prox oracle -/
+def exPC : Problem Rat :=
+  { exP with prox := fun γ x g => Alpaqa.C15.proxGradStep [] γ x g [-1] [1] }
+
+/-- `exPr` with the default model fuel -/
+def exPrF : Params Rat := { exPr with lsFuel := 4096 }
+
+def exRunC : Result Rat Unit :=
+  run exPC exDir () exPrF (fun _ => false) false [3] [5] [2] [7] [] 0 1000000
+
+theorem exPC_sized : Sized 1 (hL1 ([] : Vec Rat) 1) (domBox [-1] [1] 1) exPC.prox :=
+  boxL1_sized 1 [] [-1] [1]
+    (fun i hi => by
+      have : i = 0 := by omega
+      subst this; simp [vget])
+    (fun i _ => by simp [Alpaqa.Props.C15.lamAt]) (Or.inl (by simp))
+
+theorem exPrF_paramsOK : ParamsOK exPrF :=
+  ⟨by norm_num [exPrF, exPr], by norm_num [exPrF, exPr], by norm_num [exPrF, exPr]⟩
+
+/-- `L_max = 100 ≤ L_0·2⁷`, `2⁻⁹ < τ_min = 1/256`, `7·11 + 9 < 4096` -/
+theorem exPrF_fuelOK : FuelOK exPrF 7 9 :=
+  ⟨by norm_num [exPrF, exPr], by norm_num [exPrF, exPr], by norm_num [exPrF, exPr],
+   by norm_num [exPrF, exPr], by norm_num, by decide⟩
+
+theorem stopNever_mono : StopMono (fun _ : Nat => false) := fun _ _ _ h => h
+
+/-- the descent chain holds along the four callbacks of that solve … -/
+example : List.IsChain (fun a b : Callback Rat => DescTo 1 exPrF a b.fbe) exRunC.callbacks :=
+  (zerofpr_descent_chain 1 _ _ exPC exPC_sized exDir () exPrF exPrF_paramsOK rfl (fun _ => false)
+    stopNever_mono 7 9 exPrF_fuelOK false [3] [5] [2] [7] [] 0 1000000).1
+
+/-- … and its clauses are not vacuous there: iteration 0 takes the safeguarded step (`τ = 0`) from
+    an iterate that passed the quadratic-upper-bound test, with all reported vectors of dimension 1;
+    iterations 1 and 2 accept the accelerated step (`τ = 1`); the envelope goes `5/2 → 1/4 → 1/64 →
+    1/1024` with `γ = 1/2`, `L = 1`, `‖p₀‖² = 4`: `1/4 ≤ 5/2 − (1/4)·4`. -/
+example : exRunC.fuelOut = false ∧ exRunC.callbacks.map (·.tau) = [0, 1, 1, -1] ∧
+    exRunC.callbacks.map (·.fbe) = [5/2, 1/4, 1/64, 1/1024] ∧
+    exRunC.callbacks.map (fun cb => qubViolated exPrF cb.it) = [false, false, false, false] ∧
+    exRunC.callbacks.map (fun cb => (cb.it.x.length, cb.it.gradPsi.length, cb.gradPsiHat.length)) =
+      [(1, 1, 1), (1, 1, 1), (1, 1, 1), (1, 1, 1)] ∧
+    exRunC.callbacks.map (fun cb => (cb.it.gamma, cb.it.L, cb.it.pTp)) =
+      [(1/2, 1, 4), (1/2, 1, 1/4), (1/2, 1, 1/64), (1/2, 1, 1/1024)] ∧
+    exPrF.forceLinesearch = false ∧ exPrF.recomputeLastProx = false := by
+  decide +kernel
+
+example : ∀ cb ∈ exRunC.callbacks,
+    cb.it.psixhat ≤ cb.it.psix + cb.it.gradPsiTp + 1 / 2 * cb.it.L * cb.it.pTp +
+        (1 + |cb.it.psix|) * exPrF.qubTol ∨ exPrF.Lmax ≤ cb.it.L ∨
+    (InitInterrupted exPC () exPrF (fun _ => false) [3] [] 0 ∧ cb.k = 0) :=
+  zerofpr_reported_iterate_qub exPC exDir () exPrF exPrF_paramsOK rfl (fun _ => false)
+    stopNever_mono 7 9 exPrF_fuelOK false [3] [5] [2] [7] [] 0 1000000
+
+example : List.IsChain (fun a b : Callback Rat => b.it.gamma ≤ a.it.gamma) exRunC.callbacks :=
+  (zerofpr_gamma_chain exPC exDir () exPrF exPrF_paramsOK (fun _ => false) stopNever_mono 7 9
+    exPrF_fuelOK false [3] [5] [2] [7] [] 0 1000000).1
+
+example : exRunC.final.isSome = true ∧ ∀ c, exRunC.final = some c →
+    (QubOK exPrF c ∨ (InitInterrupted exPC () exPrF (fun _ => false) [3] [] 0 ∧
+      exRunC.stats.iterations = 0)) :=
+  ⟨by decide +kernel, fun c hc => zerofpr_final_iterate_qub exPC exDir () exPrF (fun _ => false)
+    stopNever_mono 7 9 exPrF_fuelOK false [3] [5] [2] [7] [] 0 1000000 c hc⟩
 
 end examples
 end Alpaqa.Props.C05_Zerofpr
